@@ -70,7 +70,7 @@ def solve_knapsack(
     int_weights = [int(w * scale) for w in weights]
 
     # DP table: dp[w] = max value achievable with capacity w
-    dp = [0.0] * (int_capacity + 1)
+    dp = [0] * (int_capacity + 1)
 
     # Track which items were selected
     # keep[i][w] = True if item i was taken at capacity w
